@@ -175,6 +175,9 @@ def concatenated_read_data(rep, idx, c, L, field, W, whole):
     for v, gen, ln in la.items:
         frames = [(fr[0], c.norm(fr[1]) if fr[0] == 'pyif' else fr[1], (fr[2][0] if isinstance(fr[2], tuple) else fr[2]) if fr[0] == 'pyif' else None)
                   for fr in gen]
+        # `if not readable: A else: B` is `if readable: B else: A`
+        frames = [(k_, cnd[2], not pol) if k_ == 'pyif' and isinstance(cnd, tuple) and cnd[0] == 'un' and cnd[1] == 'not' and isinstance(pol, bool)
+                  else (k_, cnd, pol) for k_, cnd, pol in frames]
         if frames == [('for', L.id, None), ('pyif', rd, True)]:
             yes.append((c.norm(v), ln))
         elif frames == [('for', L.id, None), ('pyif', rd, False)]:
@@ -308,8 +311,18 @@ def constructor(rep, idx):
             return any(isinstance(x, ast.Raise) for s_ in stmts for x in ast.walk(s_)) or \
                 any(isinstance(x, ast.Call) and isinstance(x.func, ast.Attribute) and x.func.attr.startswith("_check") for s_ in stmts for x in ast.walk(s_))
 
+        # the local(s) that hold the register width: what is handed to Element.Signature(...), and whatever is computed from a `.width`
+        width_names = {"width"}
+        for x in ast.walk(node):
+            if isinstance(x, ast.Call) and ast.unparse(x.func).endswith("Element.Signature") and x.args and isinstance(x.args[0], ast.Name):
+                width_names.add(x.args[0].id)
+            if isinstance(x, (ast.Assign, ast.AugAssign)) and any(isinstance(y, ast.Attribute) and y.attr == "width" for y in ast.walk(x.value)):
+                for t_ in (x.targets if isinstance(x, ast.Assign) else [x.target]):
+                    if isinstance(t_, ast.Name):
+                        width_names.add(t_.id)
+
         def sets_width(stmts):
-            return any(isinstance(x, ast.Name) and x.id == "width" and isinstance(x.ctx, ast.Store) for s_ in stmts for x in ast.walk(s_))
+            return any(isinstance(x, ast.Name) and x.id in width_names and isinstance(x.ctx, ast.Store) for s_ in stmts for x in ast.walk(s_))
 
         def uses_flatten(stmts):
             return any(isinstance(x, ast.Call) and isinstance(x.func, ast.Attribute) and x.func.attr == "flatten" for s_ in stmts for x in ast.walk(s_))
